@@ -372,6 +372,12 @@ class Gen:
             cands = [n for n in mutable if not env[n].endswith("[]")]
             if cands:
                 n = r.choice(cands)
+                if env[n] == "long" and r.random() < 0.4:
+                    # an int value assigned to a long variable is widened at the assignment as well
+                    big = ("lit", "int", r.choice([65536, 100000, 2147483647]))
+                    self.coverage.add(("widened-long-assign",))
+                    return [("assign", n, self.expr(env, "int", 2)),
+                            ("echo", ("bin", "*", ("var", n, "long"), big, "long"), "long")]
                 return ("assign", n, self.expr(env, env[n], 3))
         if k < 0.64:
             cands = [n for n in mutable if env[n].endswith("[]")]
